@@ -1193,6 +1193,16 @@ func wrapAny(val Node, targetType *Type) Node {
 		case *GroupExpression:
 			v.Expr = wrapAny(v.Expr, targetType)
 			return v
+		case *SliceExpression: // [[]][:1]
+			v.Left = wrapAny(v.Left, targetType)
+			v.T = targetType
+			return v
+		case *IndexExpression: // [[[]]][0]
+			if v.Left.Type().Name == ARRAY {
+				v.Left = wrapAny(v.Left, &Type{Name: ARRAY, Sub: targetType})
+				v.T = targetType
+				return v
+			}
 		}
 	}
 	arrayLit, ok := val.(*ArrayLiteral)
